@@ -84,6 +84,19 @@ SUBS = {
     'exits': "def add(a, b):\n    return a + b\nimport pedal\nexit()\n",
     'nameerr': "def add(a, b):\n    return a + b\nimport math\nprint(math.sqrt('x'))\n",
 }
+# every module whose TIFA type pedal builds in (and that exists or is mocked at run time): one submission that
+# assigns over a member, one that uses the member properly -- the pair collides on the process-wide module types
+MODULE_MEMBERS = [('math', 'math', 'sqrt', '(4)'), ('random', 'random', 'randint', '(1, 2)'), ('json', 'json', 'dumps', '([1])'),
+                  ('string', 'string', 'capwords', "('a b')"), ('pprint', 'pprint', 'pprint', '([1])'),
+                  ('turtle', 'turtle', 'forward', '(10)'), ('pyplot', 'matplotlib.pyplot', 'title', "('Growth')")]
+for _key, _mod, _member, _args in MODULE_MEMBERS:
+    # (guarded by a false condition: TIFA sees the assignment, the real module is not touched at run time)
+    SUBS['mut:' + _key] = "import %s as lib\ndef add(a, b):\n    return a + b\nif add(0, 0):\n    lib.%s = 'Decline'\n" % (_mod, _member)
+    SUBS['use:' + _key] = "import %s as lib\ndef add(a, b):\n    return a + b\nvalue = lib.%s%s\nprint(add(1, 2))\n" % (_mod, _member, _args)
+# ... and one pair where the assignment really happens: the student's program changes a real module of the process
+SUBS['rt_mut'] = "import math\ndef add(a, b):\n    return a + b\nmath.tau = 'seven'\nprint(add(1, 2))\n"
+SUBS['rt_use'] = "import math\ndef add(a, b):\n    return a + b\nprint(math.tau + add(1, 2))\n"
+MODULE_SUBS = [k for k in SUBS if k[:4] in ('mut:', 'use:')] + ['rt_mut', 'rt_use']
 ENVS = ['standard', 'blockpy', 'gradescope', 'terminal']
 
 REF = {}
@@ -163,8 +176,28 @@ def _setup():
     warnings.filterwarnings('ignore')
 
 
+_REAL = {}
+
+
+def _restore_real_modules():
+    """Harness hygiene for the long-lived worker: a submission that really assigns into a stdlib module must show up
+    in the history that contains it, not in every later history of the same worker."""
+    import importlib
+    for name in ('math', 'random', 'json', 'string', 'pprint'):
+        mod = importlib.import_module(name)
+        if name not in _REAL:
+            _REAL[name] = dict(vars(mod))
+        else:
+            d = vars(mod)
+            for k in list(d):
+                if k not in _REAL[name]:
+                    del d[k]
+            d.update(_REAL[name])
+
+
 def make_body(keys, length):
     def body(ctx):
+        _restore_real_modules()
         hist = [keys[ctx.choose(len(keys), 'g%d' % i)] for i in range(length)]
         ctx.observe(repr(hist))
         ctx.set_sample([list(h) for h in hist])
@@ -172,7 +205,7 @@ def make_body(keys, length):
                     'formatter', 'mock', 'sections', 'sections_open', 'crash', 'group_crash', 'tifa_mod', 'hide',
                     'sandbox_attrs', 'pools', 'hook', 'max_score', 'override_base', 'override_assert', 'plots', 'inputs',
                     'mock_module', 'allow', 'seeded', 'partial'}
-        if any(h[0] in mutators or h[1] in ('modmutate', 'plot') for h in hist[:-1]):
+        if any(h[0] in mutators or (h[1] in ('modmutate', 'plot', 'rt_mut') or h[1].startswith('mut:')) for h in hist[:-1]):
             ctx.mark_nontrivial(repr(hist))
         for pos, k in enumerate(hist):
             ctx.step(('grade',) + tuple(k))
@@ -184,6 +217,7 @@ def make_body(keys, length):
                 prev = hist[pos - 1] if pos else None
                 ctx.fail({'symptom': 'grading differs from the fresh-interpreter result',
                           'after_script': prev[0] if prev else '(first)', 'after_submission_kind': prev[1] if prev else '-',
+                          'submission_kind': k[1],
                           'fields': ','.join(names[i] if isinstance(i, int) and i < len(names) else str(i) for i in diff)},
                          history=[list(h) for h in hist[:pos + 1]], got=[str(x)[:160] for x in got],
                          fresh=[str(x)[:160] for x in want])
@@ -205,6 +239,7 @@ def phases(tier):
     envcore = [(s, p, e) for e in ENVS[1:] for s in ('override_template', 'override', 'formatter', 'plain')
                for p in ('runtime', 'good', 'syntax')]
     envcore += [('max_score', p, 'gradescope') for p in ('good', 'runtime')]
+    envcore += [('nothing', p, 'standard') for p in MODULE_SUBS] + [('assert', p, 'standard') for p in MODULE_SUBS]
     allg = gradings(tier)
     keys_pairs = core + envcore if tier == 'quick' else allg
     compute_references(sorted(set(keys_pairs)))
